@@ -41,10 +41,18 @@ def havoc_cell_field(ctx, cell, field):
             cell.data = ctx.fresh_str('data')
             return
     if isinstance(cell, SeqCell) and field == 'e':
-        cell.e = ctx.fresh('seq', cell.e.sort())
+        from .lists import fresh_list
+        cell.e = fresh_list(ctx, cell.e.sort(), 'seq')
         return
     if isinstance(cell, ObjCell):
         cell.attrs[field] = fresh_like(ctx, field, cell.attrs[field])
+        return
+    if isinstance(cell, DictCell) and field == 'sym':
+        if cell.items:
+            raise Unsupported('havoc of a record dict')
+        cell.sym = (ctx.fresh('dmap', z3.ArraySort(z3.StringSort(), Val)),
+                    ctx.fresh('ddom', z3.ArraySort(z3.StringSort(),
+                                                   z3.BoolSort())))
         return
     raise Unsupported('cannot havoc %r.%s' % (cell, field))
 
@@ -122,6 +130,12 @@ def frame_obligations(it, snap, lc, label):
                     raise Unsupported('loop mutates a concrete list that the '
                                       'loop contract does not declare')
         elif s[0] == 'dict':
+            if (id(c), 'sym') in declared:
+                continue
+            if s[2] is not None and c.sym is not None and not (
+                    s[2][0].eq(c.sym[0]) and s[2][1].eq(c.sym[1])):
+                raise Unsupported('loop mutates a symbolic dict that the '
+                                  'loop contract does not declare')
             if set(s[1]) != set(c.items) or not all(
                     same_expr(s[1][k], c.items[k]) for k in s[1]):
                 if (id(c), 'items') not in declared:
@@ -152,6 +166,8 @@ def exec_while(it, node):
             ordinal, fr.fi.qualname))
     label = 'loop%d' % ordinal
     eng = it.engine
+    if lc.get('prepare'):
+        lc['prepare'](it)
     # 1. invariant on entry
     for name, clause in lc['invariant']:
         ctx.oblige('%s.init.%s' % (label, name),
@@ -230,8 +246,11 @@ def exec_for(it, node):
             ordinal, fr.fi.qualname))
     label = 'loop%d' % ordinal
     eng = it.engine
+    from .values import L_len, L_at
     seq = c.e   # the sequence iterated is evaluated once
-    n = z3.Length(seq)
+    n = L_len(seq)
+    if lc.get('prepare'):
+        lc['prepare'](it)
     kname = lc.get('index', '_k')
     env0 = {kname: VInt(0)}
     for name, clause in lc['invariant']:
@@ -253,13 +272,17 @@ def exec_for(it, node):
     if lc.get('shape'):
         lc['shape'](it)
     k = ctx.fresh_int('k')
+    ctx.inst_terms.append(k)
     ctx.assume(z3.And(k >= 0, k <= n))
     envk = {kname: VInt(k)}
     for name, clause in lc['invariant']:
         ctx.assume(eng.eval_clause(it, clause, envk))
     snap = snapshot_heap(ctx)
     if ctx.branch(k < n):
-        x = seq_elem(c, z3.simplify(seq[k]))
+        # name the element (clean terms in the VCs)
+        xe = ctx.fresh('elem', L_at(seq, k).sort())
+        ctx.assume(xe == L_at(seq, k))
+        x = seq_elem(c, xe)
         if start is not None:
             x = VTuple([VInt(as_int(start) + k), x])
         it.assign(node.target, x)
